@@ -302,3 +302,150 @@ Proof.
     destruct H2 as [H2|[H2 _]]; discriminate H2.
   - split; vm_compute; reflexivity.
 Qed.
+
+(* ==== wave 7: RegionCreator's bookkeeping and cleanup_regions ================================================== *)
+From PV Require Import model.DfxpClean proofs.Pos12RegionFacts proofs.Pos12CleanFacts.
+
+(* equal layouts get the same region - in any table (dict.get under coherent == / hash, C18) *)
+Theorem C12_region_equal_layouts_share : forall m a b, layout_eqb a b = true ->
+  region_lookup m (Some a) = region_lookup m (Some b).
+Proof. exact region_lookup_compat. Qed.
+Print Assumptions C12_region_equal_layouts_share.
+
+(* layouts of the caption set that need a region share one EXACTLY when they are equal: deduplication is complete
+   (equal layouts never get two regions) and sound (different layouts never land in one region, the default included) *)
+Theorem C12_region_shared_iff_equal : forall ls a b, In (Some a) ls -> In (Some b) ls -> has_region a = true -> has_region b = true ->
+  (region_lookup (region_map ls) (Some a) = region_lookup (region_map ls) (Some b) <-> layout_eqb a b = true).
+Proof. exact region_shared_iff_equal. Qed.
+Print Assumptions C12_region_shared_iff_equal.
+
+(* the table itself: no two entries are made from equal layouts (default region included) ... *)
+Theorem C12_region_keys_pairwise_different : forall ls, ldistinct (map fst (region_map ls)).
+Proof. exact region_map_keys_distinct. Qed.
+Print Assumptions C12_region_keys_pairwise_different.
+
+(* ... the ids are r0, r1, ..., r(n-1) in creation order without gap or repetition, then the default region ... *)
+Theorem C12_region_ids_sequential : forall ls,
+  map snd (region_map ls) = map (fun n => RId (Z.of_nat n)) (seq 0 (length (created_keys ls))) ++ [RDefault].
+Proof. exact region_map_ids. Qed.
+Print Assumptions C12_region_ids_sequential.
+
+(* ... and every created region comes from a layout that occurs in the caption set, has some positioning part and is
+   not the default region *)
+Theorem C12_region_created_from_occurring_layouts : forall ls k, In k (created_keys ls) ->
+  In (Some k) ls /\ has_region k = true /\ layout_eqb k dfxp_default_region = false.
+Proof. exact created_keys_occur. Qed.
+Print Assumptions C12_region_created_from_occurring_layouts.
+
+(* cleanup_regions (unreferenced <region>s are removed before the document is printed): for EVERY document the reader's
+   result is unchanged - the reader only ever resolves ids that occur as region attributes (own / ancestor / descendant) *)
+Theorem C12_cleanup_keeps_readback : forall d, read_doc (cleanup_regions d) = read_doc d.
+Proof. exact cleanup_read_invariant. Qed.
+Print Assumptions C12_cleanup_keeps_readback.
+
+(* the written document: its <region> elements are exactly the regions its div / p / span elements refer to - no
+   dangling reference (the failure that silently lands a caption in the default region), no orphan region *)
+Theorem C12_written_regions_exact : forall g s r,
+  In r (doc_refs (write_doc g s)) <-> exists a, In (r, a) (x_regions (write_doc_clean g s)).
+Proof. exact written_regions_exact. Qed.
+Print Assumptions C12_written_regions_exact.
+
+Theorem C12_written_region_ids_unique : forall g s id a b,
+  In (id, a) (x_regions (write_doc_clean g s)) -> In (id, b) (x_regions (write_doc_clean g s)) -> a = b.
+Proof. exact clean_region_ids_unique. Qed.
+Print Assumptions C12_written_region_ids_unique.
+
+(* the tree-level round trip on the document AS WRITTEN (region table, body, cleanup): same statement as
+   C12_dfxp_layout_roundtrip, now about write_doc_clean - the model request 1211 compares with the real document *)
+Theorem C12_dfxp_layout_roundtrip_written : forall langs, Forall opt_nonneg (set_layouts (map to_dlang langs)) ->
+  Forall lang_harmless langs ->
+  exists obs, dfxp_roundtrip_clean None (map to_dlang langs) = Ok obs /\ Forall2 lang_rel obs langs.
+Proof. exact dfxp_layout_roundtrip_clean. Qed.
+Print Assumptions C12_dfxp_layout_roundtrip_written.
+
+(* region table of [A; A written as 2/4; B; the default region; a BREAK-node layout C]: A and its twin share r0, the
+   default region gets no new region; in the document a region nobody refers to (C, carried by a break node only) is
+   removed by the cleanup, r0 and r1 stay *)
+Example C12_ex_region_table :
+  let s v := mkSize v PCT in
+  let A := mkLayout (Some (mkPoint (s (1 # 2)) (s (10 # 1)))) None None None None in
+  let A' := mkLayout (Some (mkPoint (s (2 # 4)) (s (20 # 2)))) None None None (Some (lit "line:1")) in
+  let B := mkLayout (Some (mkPoint (s (30 # 1)) (s (5 # 1)))) None None None None in
+  let C := mkLayout (Some (mkPoint (s (70 # 1)) (s (70 # 1)))) None None None None in
+  region_map [Some A; Some A'; None; Some B; Some dfxp_default_region] = [(A, RId 0); (B, RId 1); (dfxp_default_region, RDefault)]
+  /\ region_lookup (region_map [Some A; Some A'; Some B]) (Some A') = RId 0
+  /\ (let doc := write_doc None [mkDlang (Some A) [mkDcap (Some B) [mkD 1 false false None 1; mkD 3 false false (Some C) 0;
+                                                                   mkD 2 true true (Some A') 0; mkD 1 false false (Some A') 2]]] in
+      map fst (x_regions doc) = [RId 0; RId 1; RId 2; RDefault]
+      /\ map fst (x_regions (cleanup_regions doc)) = [RId 0; RId 1]
+      /\ doc_refs doc = [RId 0; RId 1; RId 0]).
+Proof. vm_compute. repeat split. Qed.
+
+(* ==== wave 7: "cue settings read from a WebVTT file are written back verbatim" - the READER's side =================== *)
+From PV Require Import model.TimeRead model.VttSettings proofs.Pos12VttSettingsFacts.
+
+(* a timing line  <token> <blanks> --> <blanks> <token> <blanks> <settings> <trailing blanks> : the reader keeps exactly
+   <settings> (any text without white space at its two ends: inner blanks and tabs, commas, upper case, unknown keys) as
+   Layout.webvtt_positioning; vtt_cue_settings is the function TIMING_LINE_PATTERN's group 3 computes (request 1213) *)
+Theorem C12_vtt_reader_keeps_settings : forall t1 t2 w1 w2 w3 s w4,
+  token t1 -> token t2 -> blanks w1 -> blanks w2 -> blanks w3 -> forallb is_space w4 = true -> clean_settings s ->
+  vtt_cue_settings (t1 ++ w1 ++ arrow ++ w2 ++ t2 ++ w3 ++ s ++ w4) = Some (Some s).
+Proof. intros t1 t2 w1 w2 w3 s w4 T1 T2 W1 W2. exact (reader_keeps_settings t1 t2 w1 w2 T1 T2 W1 W2 w3 s w4). Qed.
+Print Assumptions C12_vtt_reader_keeps_settings.
+
+(* nothing, or white space only, after the end time: no layout *)
+Theorem C12_vtt_reader_no_settings : forall t1 t2 w1 w2 w4,
+  token t1 -> token t2 -> blanks w1 -> blanks w2 -> forallb is_space w4 = true ->
+  vtt_cue_settings (t1 ++ w1 ++ arrow ++ w2 ++ t2 ++ w4) = Some None.
+Proof. intros t1 t2 w1 w2 w4 T1 T2 W1 W2. exact (reader_no_settings t1 t2 w1 w2 T1 T2 W1 W2 w4). Qed.
+Print Assumptions C12_vtt_reader_no_settings.
+
+(* whatever the reader keeps has no white space at either end ... *)
+Theorem C12_vtt_reader_settings_clean : forall line s, vtt_cue_settings line = Some (Some s) -> clean_settings s.
+Proof. exact reader_settings_clean. Qed.
+Print Assumptions C12_vtt_reader_settings_clean.
+
+(* ... so read -> write -> read is the identity on cue settings: the timing line the writer prints for the settings read
+   from ANY line (C12_vtt_settings_verbatim: " " + the raw string after the time stamps) reads back as the same settings *)
+Theorem C12_vtt_settings_read_write_read : forall line s ts1 ts2, vtt_cue_settings line = Some (Some s) -> token ts1 -> token ts2 ->
+  vtt_cue_settings (vtt_timing_text ts1 ts2 (VRaw s)) = Some (Some s).
+Proof. exact settings_read_write_read. Qed.
+Print Assumptions C12_vtt_settings_read_write_read.
+
+Example C12_ex_reader_settings :
+  vtt_cue_settings (lit "00:01.000 --> 00:02.000  position:10%,start  Line:5%  ") = Some (Some (lit "position:10%,start  Line:5%"))
+  /\ vtt_cue_settings (lit "00:01.000 --> 00:02.000   ") = Some None
+  /\ vtt_cue_settings (lit "00:01.000-->00:02.000 a:b") = None
+  /\ clean_settings (lit "position:10%,start  Line:5%") /\ token (lit "00:01.000") /\ blanks (lit "  ").
+Proof.
+  split; [vm_compute; reflexivity|]. split; [vm_compute; reflexivity|]. split; [vm_compute; reflexivity|].
+  split; [|split; split; (discriminate || reflexivity)].
+  exists 112, (lit "osition:10%,start  Line:5"). split; [right; exists 37; split; reflexivity|reflexivity].
+Qed.
+
+(* ==== wave 7: tts:textAlign / tts:displayAlign at STRING level (model/DfxpAlign.v) ================================= *)
+From PV Require Import model.DfxpAlign proofs.Pos12AlignFacts.
+
+(* the names the writer prints read back as the same members; any other string gives no component *)
+Theorem C12_alignment_names_roundtrip :
+  (forall h, halign_of_name (halign_name h) = Some h) /\ (forall v, valign_of_name (valign_name v) = Some v)
+  /\ (forall s h, halign_of_name s = Some h -> s = halign_name h) /\ (forall s v, valign_of_name s = Some v -> s = valign_name v).
+Proof. exact (conj halign_name_roundtrip (conj valign_name_roundtrip (conj halign_of_name_some valign_of_name_some))). Qed.
+Print Assumptions C12_alignment_names_roundtrip.
+
+(* write then read at string level: what _create_external_alignment prints for ANY alignment (each component set or not,
+   or no Alignment object) is read by scrape_positioning_info / from_horizontal_and_vertical_align as the same members,
+   the absent ones as start / after - the alignment the enum-level read_region (C12_dfxp_attr_roundtrip) works with *)
+Theorem C12_alignment_strings_roundtrip : forall a,
+  read_alignment (fst (written_alignment a)) (snd (written_alignment a))
+  = Some (mkAlign (Some (match a with Some al => match al_h al with Some h => h | None => HStart end | None => HStart end))
+                  (Some (match a with Some al => match al_v al with Some v => v | None => VBottom end | None => VBottom end))).
+Proof. exact alignment_strings_roundtrip. Qed.
+Print Assumptions C12_alignment_strings_roundtrip.
+
+Example C12_ex_alignment_strings :
+  written_alignment (Some (mkAlign (Some HEnd) None)) = (Some (lit "end"), None)
+  /\ read_alignment (Some (lit "end")) None = Some (mkAlign (Some HEnd) (Some VBottom))
+  /\ read_alignment (Some (lit "justify")) (Some (lit "before")) = Some (mkAlign None (Some VTop))
+  /\ read_alignment (Some (lit "LEFT")) (Some (lit "top")) = None.
+Proof. vm_compute. repeat split. Qed.
